@@ -94,10 +94,10 @@ def evaluate(r, trains, edges, mrts, ri, be, rank=()):
                 vals.append(y1[kx])
             if kx > 0:
                 vals.append(y2[kx - 1])
-            if any(v != 0.0 for v in vals):
+            if any(abs(v) > TOL for v in vals):
                 r.violation(ID, "spike_profile.shared", be,
                             "spike_profile.shared/%s/%s" % (be, cls), case, 0.0, vals,
-                            "profile is not exactly 0 where both trains spike together", rank)
+                            "profile is not 0 where both trains spike together", rank)
                 return
     # evaluation at interior times agrees with the linear interpolation
     try:
